@@ -509,3 +509,15 @@ Lemma ex_reorg_roots :
   | None => False
   end.
 Proof. vm_compute. repeat split; reflexivity. Qed.
+
+(* ---- the end of a parent's span -------------------------------------------------- *)
+(* four leaves, the compact target changes between leaf 1 and leaf 2 (a difficulty adjustment inside the
+   right subtree's left neighbour ... ) : with the end target taken from the right child's START the root
+   over leaves 0..3 ends on the target of leaf 2's epoch start, not on leaf 3's *)
+Definition ex_fleaf (i target : N) : fdig := ((i, i, 10%N), (i / 2, 100 + i, target)%N, (i / 2, 100 + i, target)%N).
+Definition ex_fleaves : list fdig := [ex_fleaf 0 50; ex_fleaf 1 50; ex_fleaf 2 60; ex_fleaf 3 70].
+Lemma merge_end_target_from_start_refuted :
+  root fdig fmerge ex_fleaves = Some ((0, 3, 40), (0, 100, 50), (1, 103, 70))%N /\
+  root fdig fmerge_end_target_from_start ex_fleaves
+    = Some ((0, 3, 40), (0, 100, 50), (1, 103, 60))%N.
+Proof. vm_compute. split; reflexivity. Qed.
